@@ -12,6 +12,7 @@ Line-protocol driver for C01. Requests are `<op> <int> …`.
   morgan K (n w)^K B (n deg (m b)^deg)^B                                                     _morgan(atoms, bonds)
   cmorgan N (id z iso charge radical implH inRing stereo(-1|0|1) deg (nbr order bstereo(-1|0|1))^deg)^N           _chiral_morgan
   cfull  (same wire as cmorgan)                                                              _chiral_morgan incl. cis/trans and allene labels (Model/C01Chiral.lean)
+  stabs  (same wire as cmorgan)                                                              stereogenic_cumulenes, stereogenic_allenes, stereogenic_cis_trans, _stereo_cis_trans_centers, _stereo_cis_trans_terminals (dict order)
   cumul  (same wire as cmorgan)                                                              MoleculeStereo.cumulenes: `ok P (len a…)^P`
   same   K (old new)^K <order-wire of a> <order-wire of b>                                    C01Check.checkSame (proved checker)
   hash   z iso charge radical implH inRing                                                   hash(atom)  (Element.__hash__)
@@ -167,6 +168,30 @@ def handleInts (op : String) (xs : List Int) : Option String :=
         | .ok ps => some (" ".intercalate ("ok" :: toString ps.length :: ps.map fun p =>
             " ".intercalate (toString p.length :: p.map toString)))
         | .error s => some (showStop s)
+      | _ => none
+    | [] => none
+  | "stabs" =>
+    match xs with
+    | n :: rest =>
+      if n < 0 then none else
+      match parseViewAtomsS n.toNat rest with
+      | some (rows, []) =>
+        let m : MolView := ⟨rows.map (fun r => (r.1, r.2.1)), rows.map (fun r => (r.1, r.2.2.2))⟩
+        match ChiralFull.cumulenes doubleOf m with
+        | .error s => some (showStop s)
+        | .ok paths =>
+          match ChiralFull.stereogenicCumulenes singleOf m paths with
+          | .error e => some ("err " ++ e.name)
+          | .ok sc =>
+            let o (x : Option Nat) : String := match x with | some k => toString k | none => "-1"
+            let e (x : ChythonModel.Model.Stereo.Ends) : String := s!"{x.n0} {x.n1} {o x.n2} {o x.n3}"
+            let pr (x : Nat × Nat) : String := s!"{x.1} {x.2}"
+            some (" ".intercalate (
+              ["ok", "SC", toString sc.length] ++ sc.map (fun pe => " ".intercalate (toString pe.1.length :: pe.1.map toString) ++ " " ++ e pe.2) ++
+              ["AL", toString (ChiralFull.stereogenicAllenes sc).length] ++ (ChiralFull.stereogenicAllenes sc).map (fun r => s!"{r.1} " ++ e r.2) ++
+              ["CT", toString (ChiralFull.stereogenicCisTrans sc).length] ++ (ChiralFull.stereogenicCisTrans sc).map (fun r => pr r.1 ++ " " ++ e r.2) ++
+              ["CE", toString (ChiralFull.cisTransCenters sc).length] ++ (ChiralFull.cisTransCenters sc).map (fun r => s!"{r.1} " ++ pr r.2) ++
+              ["TE", toString (ChiralFull.cisTransTerminals sc).length] ++ (ChiralFull.cisTransTerminals sc).map (fun r => s!"{r.1} " ++ pr r.2)))
       | _ => none
     | [] => none
   | "same" =>
